@@ -30,7 +30,7 @@ class Livelock(Exception):
     RecursionError whose depth depends on the interpreter's stack)"""
 
 
-LIVELOCK_CAP = 60
+LIVELOCK_CAP = 200     # consecutive failed SQL calls of ONE task without a successful write of that task
 
 
 class Task:
@@ -72,7 +72,7 @@ class Sim:
         self.aborting = None
         self.on_event = None         # crash trigger hook: fn(kind) called at every crash-eligible event
         self.starved = 0
-        self.sql_errors_in_a_row = 0
+        self.sql_errors_in_a_row = {}
         self._rr_last = -1
         self._alive = 0
         self._lock = threading.Lock()
